@@ -223,3 +223,7 @@ pub(crate) fn index_checked_from_collector<S: Open>(
     collector.extend(index_packs);
     Ok(GlobalIndex::new_from_index(collector.into_index()))
 }
+
+#[cfg(kani)]
+#[path = "/verif/harness/commands_repair_index.rs"]
+pub(crate) mod verif_harness;
